@@ -398,7 +398,16 @@ def replay(cand):
 
 def main(tier):
     rep = common.Report("C14", tier, "proof")
-    base_ir = load_ir()
+    try:
+        base_ir = load_ir()
+    except RuntimeError as e:
+        # the base module obeys every documented rule: its rejection is itself a violation of
+        # "every module that satisfies the documented rules is accepted"
+        rep.coverage.update({"obligations": 1, "discharged": 0, "checker_cmd": "python3-vt /verif/check C14",
+                             "trusted_base": ["the base module in vf/checks/c14.py"]})
+        rep.violation({"harness": "base-module"}, "the front end rejects a module that satisfies every documented rule: %s" % str(e)[:400],
+                      {"harness": "base-module", "emb": BASE})
+        return rep.finish()
     res = {"obligations": 0, "discharged": 0, "candidates": [], "unknown": [], "witness": {}, "paths": 0, "queries": 0}
     names = []
     for name, fn in harnesses():
@@ -497,6 +506,16 @@ def replay_unit(cand, base_ir):
 def replay_file(path):
     with open(path) as f:
         obj = json.load(f)
+    if obj["replay"].get("harness") == "base-module":
+        try:
+            load_ir()
+            ok = False
+        except RuntimeError:
+            ok = True
+        print("replay %s: %s" % (path, "REPRODUCED" if ok else "did not reproduce"))
+        if ok:
+            print("VIOLATION property=C14 replay=%s" % path)
+        return 1 if ok else 0
     base_ir = load_ir()
     ok = replay_unit(obj["replay"], base_ir)
     print("replay %s: %s" % (path, "REPRODUCED" if ok else "did not reproduce"))
